@@ -617,7 +617,7 @@ class ByteVec:
     def __setitem__(self, key, value) -> None:
         if isinstance(key, slice):
             start = key.start or 0
-            stop = key.stop or self.length
+            stop = key.stop if key.stop is not None else self.length
             step = key.step or 1
 
             if step != 1:
